@@ -29,7 +29,7 @@ Definition D_no_escape := Eval vm_compute in no_escape funcs escapes. Print D_no
 Definition D_escaping := Eval vm_compute in filter (fun e => elem_written funcs (snd e)) escapes.
 Print D_escaping.
 Definition D_lock_order := Eval vm_compute in lock_order_ok funcs. Print D_lock_order.
-Definition D_lock_edges := Eval vm_compute in nodup (fun a b => prod_eq_dec a b) (lock_edges funcs). Print D_lock_edges.
+Definition D_lock_edges := Eval vm_compute in lock_edges funcs. Print D_lock_edges.
 Definition D_cb_under_lock := Eval vm_compute in
   map fst (filter (fun p => match inline fuel0 funcs (snd p) with Some c => negb (cb_ok [] c) | None => true end) funcs).
 Print D_cb_under_lock.
